@@ -4,7 +4,12 @@ package validate
 // (injected with `go test -overlay`, nothing is written to /repo). Each test FAILS while the defect is present.
 
 import (
+	"encoding/json"
 	"testing"
+
+	"github.com/go-openapi/loads"
+	"github.com/go-openapi/spec"
+	"github.com/go-openapi/strfmt"
 )
 
 func TestKF_D4_max(t *testing.T) {
@@ -32,4 +37,34 @@ func TestKF_D17_uintptr(t *testing.T) {
 	if err := MaximumNativeType("p", "body", uintptr(5), 0, false); err == nil {
 		t.Fatalf("MaximumNativeType(uintptr(5), max=0) accepted: uintptr falls into the non-numeric default branch")
 	}
+}
+
+// ---- regression replays of repaired defects ("fixed" entries of known_findings.json): these PASS on the repaired tree.
+
+func TestFixed_D1(t *testing.T) {
+	var sch spec.Schema
+	if err := json.Unmarshal([]byte(`{"additionalItems":{"type":"string"}}`), &sch); err != nil {
+		t.Fatal(err)
+	}
+	// panicked before 0d4df5d (reflect: slice index out of range)
+	_ = AgainstSchema(&sch, []interface{}{1.0}, strfmt.Default)
+	var tuple spec.Schema
+	if err := json.Unmarshal([]byte(`{"items":[{},{}],"additionalItems":{"type":"string"}}`), &tuple); err != nil {
+		t.Fatal(err)
+	}
+	if err := AgainstSchema(&tuple, []interface{}{1.0, 1.0, "a", "b", 5.0}, strfmt.Default); err == nil {
+		t.Fatalf("trailing additional item 5.0 (not a string) was not validated")
+	}
+}
+
+func TestFixed_D5(t *testing.T) {
+	raw := `{"swagger":"2.0","info":{"title":"t","version":"1"},"paths":{"/p":{"post":{"operationId":"op",
+	  "parameters":[{"name":"a.a","in":"body","schema":{"type":"object","properties":{"x":{"type":"string","default":"d"}}}}],
+	  "responses":{"200":{"description":"ok"}}}}}}`
+	doc, err := loads.Analyzed(json.RawMessage(raw), "")
+	if err != nil {
+		t.Fatal(err)
+	}
+	// nil pointer dereference before 0b22061
+	_ = Spec(doc, strfmt.Default)
 }
